@@ -161,8 +161,11 @@ pub fn main_worker(args: &[String]) {
                 if st.switches > 0 {
                     inters.insert(st.interleaving);
                 }
-                if sum.samples.len() < 3 && (run / of) % 997 == 3 {
-                    sum.samples.push(props::sample_of(&scn));
+                if sum.samples.is_empty() || (sum.samples.len() < 3 && (run / of) % 997 == 3) {
+                    sum.samples.push(match &st.sample {
+                        Some(text) => json!({"run": run, "batch": batch, "case": text}),
+                        None => props::sample_of(&scn),
+                    });
                 }
             }
             for v in checked.violations {
@@ -406,7 +409,7 @@ pub fn main_run(args: &[String]) -> i32 {
         "property_id": prop,
         "tier": tier,
         "seed": seed,
-        "level": "exploration",
+        "level": if prop == "C11" { "fault_enumeration" } else { "exploration" },
         "coverage": {
             "evaluations": total.runs,
             "distinct_nontrivial": distinct,
